@@ -52,10 +52,12 @@ Theorem C14_exactness_is_satisfiable :
   num_key_exact (NInt (-3)) /\ num_key_exact (NUInt 9007199254740992) /\ num_key_exact (NFloat 13837309855095848960) /\
   num_key_exact (NFloat 9223372036854775808) /\ num_key_exact (NFloat F_NAN).
 Proof. exact key_exact_examples. Qed.
+Print Assumptions C14_exactness_is_satisfiable.
 
 (* after the fix both zeros have one key (before it, -0.0 sorted below 0 although compare calls them equal) *)
 Theorem C14_both_zeros_one_key : f64_key 9223372036854775808 = f64_key 0.
 Proof. reflexivity. Qed.
+Print Assumptions C14_both_zeros_one_key.
 
 (* ---- the byte walker itself (ComparableWalk.v: convert_to_comparable and its scalar / array / object helpers with
    absolute offsets and early returns): on the encoding of any well-formed document it appends exactly the key of the
@@ -129,6 +131,7 @@ Theorem C14_container_class_is_satisfiable :
   key_safe_doc deep_left = true /\ key_safe_doc deep_right = true /\ cmp_value deep_left deep_right = Lt /\
   (do ka <- comparable_key deep_left; do kb <- comparable_key deep_right; Ok (bytes_cmp ka kb)) = Ok Lt.
 Proof. repeat split; vm_compute; reflexivity. Qed.
+Print Assumptions C14_container_class_is_satisfiable.
 
 Theorem C14_marker_bounds_are_sharp :
   (let a := VArr [VStr [97]; VNull] in let b := VArr [VStr [97; 1; 6]] in
@@ -138,9 +141,24 @@ Theorem C14_marker_bounds_are_sharp :
    cmp_value a b = Lt /\ (do ka <- comparable_key a; do kb <- comparable_key b; Ok (bytes_cmp ka kb)) = Ok Gt /\
    key_safe_doc a = true /\ key_safe_doc b = false /\ key_safe_doc (VObj [([97; 2; 6], VNull)]) = true).
 Proof. split; [exact string_bound_sharp|exact object_key_bound_sharp]. Qed.
+Print Assumptions C14_marker_bounds_are_sharp.
 
 Theorem C14_depth_bound_is_sharp :
   let a := nest 254 (VArr [VArr []; VArr []]) in let b := nest 254 (VArr [VArr [VArr []]]) in
   comparable_key a = comparable_key b /\ cmp_value a b = Lt /\ key_safe_doc a = true /\ key_safe_doc b = false.
 Proof. exact depth_bound_sharp. Qed.
 Print Assumptions C14_depth_bound_is_sharp.
+
+(* ---- the fuel of the comparable-key walker model.  In ComparableWalk.v running out of fuel is SILENT (the loops and the
+   nesting answer `Ok buf`, rd_words answers None), so "<> Err EFuel" would say nothing.  ExtraFuel14.v copies the
+   walker with every fuel a parameter (comparable_w_g g h: g V = fuel of the count-driven loops, h V = nesting fuel, as
+   functions of the buffer walked; with the model's fuels S (length V) the copy IS the model, by reflexivity) and shows
+   that any fuels at least the model's give the model's answer on EVERY input: the fuel never cuts a key short. *)
+From JB Require Import ComparableWalk ExtraFuel14.
+Theorem C14_fuel_never_exhausted :
+  (forall bs buf, comparable_w_g model_fuel model_fuel bs buf = comparable_w bs buf) /\
+  (forall g h, (forall V, (S (length V) <= g V)%nat) -> (forall V, (S (length V) <= h V)%nat) ->
+     forall bs buf, comparable_w_g g h bs buf = comparable_w bs buf) /\
+  (forall V buf f, (S (length V) <= f)%nat -> comparable_b_fuel f V buf = comparable_b V buf).
+Proof. split; [exact comparable_w_g_model|]. split; [exact comparable_w_fuel_independent|exact comparable_b_fuel_independent]. Qed.
+Print Assumptions C14_fuel_never_exhausted.
